@@ -354,9 +354,14 @@ func analyze(sc *scenario, sn snapshot, reorgFeature bool) *analysis {
 		// scheduler was never told about them (cached answer predates the activation after missed first-slot ticks).
 		an.info[predatesInfo] += len(stale)
 
-		// offset / not-early
+		// offset / not-early: (a) the fake-clock time at which the subscriber was actually invoked, for every
+		// duty type; (b) the deadline handed to the delay function. When the scheduler waited on the harness
+		// channel (which stands for "the deadline has been reached" and is released without moving the
+		// clock), the effective trigger time is the later of the two; when the wait used a timer of the
+		// fake clock itself (early-fetch cases) it is the observed clock time alone.
 		start := sc.slotStart(slot)
 		off := sc.offsetOf(tr.Duty.Type)
+		an.info["trigger_times_checked"]++
 		if tr.Now.Before(start) {
 			add("scheduler/offset/triggered-before-slot-start/"+tname,
 				fmt.Sprintf("duty %v delivered at clock %v before its slot starts at %v", tr.Duty, tr.Now.Sub(genesis), start.Sub(genesis)), map[string]any{"duty": tr.Duty.String()})
@@ -369,22 +374,25 @@ func analyze(sc *scenario, sn snapshot, reorgFeature bool) *analysis {
 					continue
 				}
 				anyD = d
-				if d.RelSeq != 0 && d.RelSeq < tr.Seq {
+				if d.Clock || (d.RelSeq != 0 && d.RelSeq < tr.Seq) {
 					rel = d
 				}
 			}
+			effective, explained := tr.Now, false
+			if rel != nil && !rel.Clock && rel.Deadline.After(effective) {
+				effective = rel.Deadline
+			}
 			switch {
 			case anyD == nil:
-				if tr.Now.Before(start.Add(off)) {
-					add("scheduler/offset/triggered-before-offset-without-waiting/"+tname,
-						fmt.Sprintf("duty %v delivered at clock %v without asking the delay function; its offset is slot start + %v", tr.Duty, tr.Now.Sub(genesis), off), map[string]any{"duty": tr.Duty.String()})
-				}
+				an.info["offset_duty_triggers_without_delay_function/"+tname]++
 			case rel == nil:
+				explained = true
 				add("scheduler/offset/triggered-before-delay-released/"+tname,
 					fmt.Sprintf("duty %v delivered before the delay function released it", tr.Duty), map[string]any{"duty": tr.Duty.String()})
 			default:
 				want := start.Add(off)
 				if rel.Deadline.Before(want) {
+					explained = true
 					add("scheduler/offset/deadline-before-offset/"+tname,
 						fmt.Sprintf("duty %v waits until slot start + %v, the documented offset is %v", tr.Duty, rel.Deadline.Sub(start), off), map[string]any{"duty": tr.Duty.String()})
 				} else if rel.Deadline.After(want) {
@@ -395,6 +403,11 @@ func analyze(sc *scenario, sn snapshot, reorgFeature bool) *analysis {
 				if rel.Held {
 					an.info["held_delays_checked"]++
 				}
+			}
+			if effective.Before(start.Add(off)) && !explained {
+				add("scheduler/offset/triggered-before-offset/"+tname,
+					fmt.Sprintf("duty %v delivered to the subscriber at slot start + %v on the fake clock; its documented offset into the slot is %v", tr.Duty, effective.Sub(start), off),
+					map[string]any{"duty": tr.Duty.String(), "trigger_clock_offset_into_slot": effective.Sub(start).String(), "delay_function_called": anyD != nil})
 			}
 		}
 	}
